@@ -35,7 +35,9 @@ def _result(draw, max_rows=12):
     types = draw(st.lists(st.sampled_from(sorted(TYPES)), min_size=m, max_size=m))
     n = draw(st.integers(0, max_rows))
     rows = [[draw(_val(t)) for t in types] for _ in range(n)]
-    return {"cols": cols, "types": types, "rows": rows}
+    # what the cursor executes to produce its next result: the SELECT over these rows, or a statement whose result is a status row
+    stmt = draw(st.sampled_from(["select", "select", "select", "select", "delete-zero", "update-all", "insert-one", "ddl", "nop"]))
+    return {"cols": cols, "types": types, "rows": rows, "stmt": stmt}
 
 
 _op = st.one_of(
@@ -88,7 +90,7 @@ def run_fetch(case, ctx: Ctx) -> None:
     results = case["results"]
     if not results:
         raise InvalidCase()
-    fs = new_instance()
+    fs = new_instance(nop_regexes=[r"^\s*VACUUM"])
     try:
         conn = fs.connect(database="DB1", schema="S1")
         cur = conn.cursor(DictCursor if case["cursor"] == "dict" else SnowflakeCursor)
@@ -117,8 +119,32 @@ def run_fetch(case, ctx: Ctx) -> None:
                 setup.execute(f"INSERT INTO {tname} VALUES {vals}")
             proj = ", ".join(f"c{j} AS {NAMES[res['cols'][j]][0]}" for j in range(m))
             names = [NAMES[res["cols"][j]][1] for j in range(m)]
-            cur.execute(f"SELECT {proj} FROM {tname} ORDER BY rid")
-            return rows, names
+            stmt = res.get("stmt", "select")
+            ctx.cls(f"result-of:{stmt}")
+            state["rowcount"] = None
+            if stmt == "select":
+                cur.execute(f"SELECT {proj} FROM {tname} ORDER BY rid")
+                return rows, names
+            # statements answered with one status row; rowcount is the affected count for DML
+            if stmt == "delete-zero":
+                cur.execute(f"DELETE FROM {tname} WHERE rid < -5")
+                state["rowcount"] = 0
+                return [(0,)], ["number of rows deleted"]
+            if stmt == "update-all":
+                cur.execute(f"UPDATE {tname} SET rid = rid")
+                state["rowcount"] = len(rows)
+                return [(len(rows), 0)], ["number of rows updated", "number of multi-joined rows updated"]
+            if stmt == "insert-one":
+                cur.execute(f"INSERT INTO {tname} (rid) VALUES (1000)")
+                state["rowcount"] = 1
+                return [(1,)], ["number of rows inserted"]
+            if stmt == "ddl":
+                cur.execute(f"CREATE OR REPLACE TABLE DDL_{ri} (i INT)")
+                return [(f"Table DDL_{ri} successfully created.",)], ["status"]
+            if stmt == "nop":
+                cur.execute("VACUUM everything")  # matches the connection's nop_regexes
+                return [("Statement executed successfully.",)], ["status"]
+            raise InvalidCase()
 
         def next_result():
             state["ri"] = (state["ri"] + 1) % len(results)
@@ -234,8 +260,9 @@ def run_fetch(case, ctx: Ctx) -> None:
                                     break
                     ctx.cls("pandas")
                 elif kind == "rowcount":
-                    if cur.rowcount != n:
-                        ctx.fail("C05|rowcount|wrong-count", f"rowcount {cur.rowcount}, result has {n} rows")
+                    want_rc = n if state.get("rowcount") is None else state["rowcount"]
+                    if cur.rowcount != want_rc:
+                        ctx.fail("C05|rowcount|wrong-count", f"rowcount {cur.rowcount}, want {want_rc} (result has {n} rows)")
                 elif kind == "desc":
                     d = cur.description
                     if [c.name for c in d] != state["names"]:
@@ -270,7 +297,9 @@ PROP = Prop(
                 "Hypothesis draws 1-3 result shapes (0-12/30 rows x 1-5 typed columns, column names drawn with "
                 "replacement from a pool of unquoted/quoted/spaced names so repeats are frequent), tuple or dict cursor, "
                 "0-2 fetches before any execute and 1-12 fetch ops (fetchone, fetchmany(k), fetchmany() under arraysize, "
-                "arraysize=k, fetchall, fetch_pandas_all, rowcount, description, re-execute). Oracle: a list and an index. "
+                "arraysize=k, fetchall, fetch_pandas_all, rowcount, description, re-execute). Each result is the SELECT over the rows or, one time "
+                "in three, the status row of a zero-row DELETE, an UPDATE, an INSERT, a DDL statement or a nop_regexes match run on the same "
+                "cursor (so positions and counts of the previous result must not leak). Oracle: a list and an index. "
                 "Non-trivial: the fetch sequence split a result in >=2 non-empty pieces, or the projection repeats a name."
             ),
             quick=500,
